@@ -57,13 +57,14 @@ def immTok (s : Instr) (imme : Str) : R Instr :=
   | none => .error (.ub "imm_tok: strtok_r returned NULL")
   | some (tok, _) =>
     let hex := chAt tok 1 == ch! 'x' || (chAt tok 1 != 0 && chAt tok 2 == ch! 'x')
-    let opt :=
-      if hex && (s.opt &&& c_SMART_MOV_IMM != 0) && len < c_STR_HEX_64
-      then s.opt ||| c_NASM_MOV_IMM else s.opt
+    -- C: under SMART, `assembly_opt |= NASM_MOV_IMM` unless the literal is hexadecimal and at least
+    -- STR_HEX_64 characters long.  The model records the spelling fact; `effNasm` combines it with
+    -- the option byte where the bit is read.
+    let narrowOk := !(hex && len ≥ c_STR_HEX_64)
     let (v, rest, seen) := strtoulEnd tok (if hex then 16 else 10)
     -- the whole token has to be a number (`end == imme || *end != '\0'` fails the line)
     if !seen || !rest.isEmpty then .error .fail
-    else .ok { s with imm := true, opt := opt, cons := v }
+    else .ok { s with imm := true, narrowOk := narrowOk, cons := v }
 
 /-- overwrite the first `n` characters behind the leading blanks with blanks -/
 def clearAfterBlanks (tok : Str) (n : Nat) : Str :=
